@@ -487,7 +487,7 @@ variable (fileSize : Nat) (memberSizeAt : Nat → Nat) (magicAt : Nat → Bool)
 theorem scanLoop_succ (fuel cur : Nat) (acc : List Member) :
     scanLoop fileSize memberSizeAt magicAt (fuel + 1) cur acc =
       if cur = 0 then .ok acc
-      else if cur < 20 then .ok acc
+      else if cur < 20 then .error .leading
       else if memberSizeAt cur = 0 ∨ memberSizeAt cur > cur then .error .badSize
       else if cur - memberSizeAt cur + 4 > fileSize then .error .eof
       else if ¬ magicAt (cur - memberSizeAt cur) then .error .badMagic
@@ -598,12 +598,27 @@ theorem Contig.sum_sizes {k : Nat} : ∀ {a b : Nat} {ms : List Member}, Contig 
     simp only [List.map_cons, List.sum_cons]
     omega
 
+/-- every position of the covered range lies inside one of the members -/
+theorem Contig.covers {k : Nat} : ∀ {a b : Nat} {ms : List Member}, Contig k a ms b →
+    ∀ p, a ≤ p → p < b → ∃ m ∈ ms, m.start ≤ p ∧ p < m.start + m.size := by
+  intro a b ms
+  induction ms generalizing a with
+  | nil => intro h p h1 h2; simp only [Contig] at h; omega
+  | cons m0 ms ih =>
+    intro h p h1 h2
+    obtain ⟨g1, g2, g3⟩ := h
+    by_cases hp : p < a + m0.size
+    · exact ⟨m0, List.mem_cons_self, by omega, by omega⟩
+    · obtain ⟨m, hm, q1, q2⟩ := ih g3 p (by omega) h2
+      exact ⟨m, List.mem_cons_of_mem _ hm, q1, q2⟩
+
 /-- invariant of the loop: what has been collected covers `[cur, fileSize)`; the result covers
-`[a, fileSize)` with `a < 20`; the two model-only errors do not occur. -/
+`[0, fileSize)` - the whole file (before the repair of `scan_members`: `[a, fileSize)` with `a < 20`);
+the two model-only errors do not occur. -/
 theorem scanLoop_spec : ∀ (fuel cur : Nat) (acc : List Member), cur < fuel →
     Contig 1 cur acc fileSize →
     match scanLoop fileSize memberSizeAt magicAt fuel cur acc with
-    | .ok ms => ∃ a, a < 20 ∧ Contig 1 a ms fileSize ∧ ∃ pre, ms = pre ++ acc
+    | .ok ms => Contig 1 0 ms fileSize ∧ ∃ pre, ms = pre ++ acc
     | .error e => e ≠ .fuel ∧ e ≠ .arith := by
   intro fuel
   induction fuel with
@@ -612,10 +627,10 @@ theorem scanLoop_spec : ∀ (fuel cur : Nat) (acc : List Member), cur < fuel →
     intro cur acc hf hc
     rw [scanLoop_succ]
     by_cases h0 : cur = 0
-    · rw [if_pos h0]; exact ⟨cur, by omega, hc, [], rfl⟩
+    · rw [if_pos h0]; exact ⟨h0 ▸ hc, [], rfl⟩
     rw [if_neg h0]
     by_cases h20 : cur < 20
-    · rw [if_pos h20]; exact ⟨cur, h20, hc, [], rfl⟩
+    · rw [if_pos h20]; exact ⟨by decide, by decide⟩
     rw [if_neg h20]
     by_cases hm : memberSizeAt cur = 0 ∨ memberSizeAt cur > cur
     · rw [if_pos hm]; exact ⟨by decide, by decide⟩
@@ -638,17 +653,17 @@ theorem scanLoop_spec : ∀ (fuel cur : Nat) (acc : List Member), cur < fuel →
         ({ start := cur - memberSizeAt cur, size := memberSizeAt cur } :: acc) with
     | error e => exact id
     | ok ms =>
-      rintro ⟨a, ha, hcon, pre, hpre⟩
-      exact ⟨a, ha, hcon, pre ++ [{ start := cur - memberSizeAt cur, size := memberSizeAt cur }], by rw [hpre]; simp⟩
+      rintro ⟨hcon, pre, hpre⟩
+      exact ⟨hcon, pre ++ [{ start := cur - memberSizeAt cur, size := memberSizeAt cur }], by rw [hpre]; simp⟩
 
 
 /-- G5 (main statement).  `scan_members` with fuel `fileSize + 1`:
 * never runs out of fuel and never underflows (the two model-only errors are impossible);
-* on success the member list is non-empty and tiles `[a, fileSize)` for some `a < 20`
+* on success the member list is non-empty and tiles `[0, fileSize)`, the whole file
   (contiguous, in file order, every member of size ≥ 1). -/
 theorem scanMembers_total :
     match scanMembers fileSize memberSizeAt magicAt with
-    | .ok ms => ms ≠ [] ∧ ∃ a, a < 20 ∧ Contig 1 a ms fileSize
+    | .ok ms => ms ≠ [] ∧ Contig 1 0 ms fileSize
     | .error e => e ≠ .fuel ∧ e ≠ .arith := by
   unfold scanMembers scanMembersFuel
   by_cases hs : fileSize < Consts.LZIP_HEADER_SIZE + Consts.LZIP_TRAILER_SIZE
@@ -661,7 +676,7 @@ theorem scanMembers_total :
   | ok ms =>
     cases ms with
     | nil => intro _; exact ⟨by decide, by decide⟩
-    | cons m ms => rintro ⟨a, ha, hc, _⟩; exact ⟨by simp, a, ha, hc⟩
+    | cons m ms => rintro ⟨hc, _⟩; exact ⟨by simp, hc⟩
 
 /-- G5a: fuel `fileSize + 1` is enough — every larger fuel gives the same answer -/
 theorem scanMembers_fuel_indep (fuel : Nat) (h : fileSize + 1 ≤ fuel) :
@@ -670,14 +685,14 @@ theorem scanMembers_fuel_indep (fuel : Nat) (h : fileSize + 1 ≤ fuel) :
   rw [scanLoop_fuel_indep fileSize memberSizeAt magicAt fuel (fileSize + 1) fileSize [] (by omega) (by omega)]
 
 theorem scanMembers_ok {ms : List Member} (h : scanMembers fileSize memberSizeAt magicAt = .ok ms) :
-    ms ≠ [] ∧ ∃ a, a < 20 ∧ Contig 1 a ms fileSize := by
+    ms ≠ [] ∧ Contig 1 0 ms fileSize := by
   have := scanMembers_total fileSize memberSizeAt magicAt
   rw [h] at this; exact this
 
 /-- G5b: every member lies inside the file and is non-empty -/
 theorem scanMembers_inside {ms : List Member} (h : scanMembers fileSize memberSizeAt magicAt = .ok ms) :
     ∀ m ∈ ms, m.start + m.size ≤ fileSize ∧ 1 ≤ m.size := by
-  obtain ⟨_, a, _, hc⟩ := scanMembers_ok fileSize memberSizeAt magicAt h
+  obtain ⟨_, hc⟩ := scanMembers_ok fileSize memberSizeAt magicAt h
   intro m hm
   obtain ⟨_, h2, h3⟩ := hc.inside m hm
   exact ⟨h2, h3⟩
@@ -685,7 +700,7 @@ theorem scanMembers_inside {ms : List Member} (h : scanMembers fileSize memberSi
 /-- G5c: members are pairwise disjoint and in file order -/
 theorem scanMembers_disjoint {ms : List Member} (h : scanMembers fileSize memberSizeAt magicAt = .ok ms) :
     ms.Pairwise (fun m1 m2 => m1.start + m1.size ≤ m2.start) := by
-  obtain ⟨_, a, _, hc⟩ := scanMembers_ok fileSize memberSizeAt magicAt h
+  obtain ⟨_, hc⟩ := scanMembers_ok fileSize memberSizeAt magicAt h
   exact hc.pairwise
 
 /-- G5d: the number of members, hence of loop iterations and of dispatched work units, is at most the file
@@ -693,7 +708,7 @@ size; and the work-unit buffers (`vec![0; member.compressed_size]`) add up to at
 theorem scanMembers_count {ms : List Member} (h : scanMembers fileSize memberSizeAt magicAt = .ok ms) :
     ms.length ≤ fileSize ∧ (ms.map (·.size)).sum ≤ fileSize ∧
       ∀ m ∈ ms, dispatchAlloc m = some m.size ∨ 2 ^ 64 ≤ fileSize := by
-  obtain ⟨_, a, _, hc⟩ := scanMembers_ok fileSize memberSizeAt magicAt h
+  obtain ⟨_, hc⟩ := scanMembers_ok fileSize memberSizeAt magicAt h
   have h1 := hc.length_le
   have h2 := hc.sum_sizes
   refine ⟨by omega, by omega, ?_⟩
@@ -704,6 +719,74 @@ theorem scanMembers_count {ms : List Member} (h : scanMembers fileSize memberSiz
   · left; rw [if_pos hlt]
   · right; omega
 
+/-- G5d': the work-unit buffers add up to exactly the file size: no byte of an accepted file is left out
+(before the repair of `scan_members` up to 19 leading bytes were) -/
+theorem scanMembers_sum {ms : List Member} (h : scanMembers fileSize memberSizeAt magicAt = .ok ms) :
+    (ms.map (·.size)).sum = fileSize := by
+  obtain ⟨_, hc⟩ := scanMembers_ok fileSize memberSizeAt magicAt h
+  have := hc.sum_sizes
+  omega
+
+/-- what the loop checked of each member it returns: the four bytes at its start are the magic, and the
+`member_size` field of the trailer at its end is its size -/
+theorem scanLoop_members : ∀ (fuel cur : Nat) (acc : List Member),
+    (∀ m ∈ acc, magicAt m.start = true ∧ memberSizeAt (m.start + m.size) = m.size) →
+    ∀ ms, scanLoop fileSize memberSizeAt magicAt fuel cur acc = .ok ms →
+    ∀ m ∈ ms, magicAt m.start = true ∧ memberSizeAt (m.start + m.size) = m.size := by
+  intro fuel
+  induction fuel with
+  | zero => intro cur acc _ ms h; rw [scanLoop] at h; cases h
+  | succ f ih =>
+    intro cur acc hacc ms
+    rw [scanLoop_succ]
+    by_cases h0 : cur = 0
+    · rw [if_pos h0]; intro h; cases h; exact hacc
+    rw [if_neg h0]
+    by_cases h20 : cur < 20
+    · rw [if_pos h20]; intro h; cases h
+    rw [if_neg h20]
+    by_cases hm : memberSizeAt cur = 0 ∨ memberSizeAt cur > cur
+    · rw [if_pos hm]; intro h; cases h
+    rw [if_neg hm]
+    by_cases he : cur - memberSizeAt cur + 4 > fileSize
+    · rw [if_pos he]; intro h; cases h
+    rw [if_neg he]
+    by_cases hg : ¬ magicAt (cur - memberSizeAt cur)
+    · rw [if_pos hg]; intro h; cases h
+    rw [if_neg hg]
+    have hg' : magicAt (cur - memberSizeAt cur) = true := by
+      cases hb : magicAt (cur - memberSizeAt cur) with
+      | true => rfl
+      | false => exact absurd (by rw [hb]; decide) hg
+    apply ih
+    intro m hmem
+    rcases List.mem_cons.mp hmem with rfl | hmem
+    · refine ⟨hg', ?_⟩
+      have : cur - memberSizeAt cur + memberSizeAt cur = cur := by omega
+      simp only []
+      rw [this]
+    · exact hacc m hmem
+
+theorem scanMembers_members {ms : List Member} (h : scanMembers fileSize memberSizeAt magicAt = .ok ms) :
+    ∀ m ∈ ms, magicAt m.start = true ∧ memberSizeAt (m.start + m.size) = m.size := by
+  unfold scanMembers scanMembersFuel at h
+  by_cases hs : fileSize < Consts.LZIP_HEADER_SIZE + Consts.LZIP_TRAILER_SIZE
+  · rw [if_pos hs] at h; cases h
+  rw [if_neg hs] at h
+  have key := scanLoop_members fileSize memberSizeAt magicAt (fileSize + 1) fileSize []
+    (fun m hm => by cases hm)
+  revert h key
+  cases scanLoop fileSize memberSizeAt magicAt (fileSize + 1) fileSize [] with
+  | error e => intro h; cases h
+  | ok ms' =>
+    intro h key
+    have hms : ms' = ms := by
+      cases ms' with
+      | nil => cases h
+      | cons m r => cases h; rfl
+    subst hms
+    exact key ms' rfl
+
 /-! ### With the magic check: every member has at least 4 bytes, so at most `fileSize / 4` members -/
 
 /-- the only property of the magic test that matters: `LZIP` does not overlap a shifted copy of itself -/
@@ -712,7 +795,7 @@ def NoOverlap (magicAt : Nat → Bool) : Prop :=
 
 theorem scanLoop_spec4 (hno : NoOverlap magicAt) : ∀ (fuel cur : Nat) (acc : List Member), cur < fuel →
     Contig 4 cur acc fileSize → (cur = fileSize ∨ magicAt cur = true) →
-    ∀ ms, scanLoop fileSize memberSizeAt magicAt fuel cur acc = .ok ms → ∃ a, a < 20 ∧ Contig 4 a ms fileSize := by
+    ∀ ms, scanLoop fileSize memberSizeAt magicAt fuel cur acc = .ok ms → Contig 4 0 ms fileSize := by
   intro fuel
   induction fuel with
   | zero => intro _ _ h; omega
@@ -720,10 +803,10 @@ theorem scanLoop_spec4 (hno : NoOverlap magicAt) : ∀ (fuel cur : Nat) (acc : L
     intro cur acc hf hc hcur ms
     rw [scanLoop_succ]
     by_cases h0 : cur = 0
-    · rw [if_pos h0]; intro h; cases h; exact ⟨cur, by omega, hc⟩
+    · rw [if_pos h0]; intro h; cases h; exact h0 ▸ hc
     rw [if_neg h0]
     by_cases h20 : cur < 20
-    · rw [if_pos h20]; intro h; cases h; exact ⟨cur, h20, hc⟩
+    · rw [if_pos h20]; intro h; cases h
     rw [if_neg h20]
     by_cases hm : memberSizeAt cur = 0 ∨ memberSizeAt cur > cur
     · rw [if_pos hm]; intro h; cases h
@@ -763,6 +846,29 @@ theorem scanLoop_spec4 (hno : NoOverlap magicAt) : ∀ (fuel cur : Nat) (acc : L
       rw [this]; exact hc
     exact ih (cur - memberSizeAt cur) _ (by omega) hc' (Or.inr hg') ms
 
+/-- G5f (what the repair of `scan_members` bought): with a magic test that cannot overlap itself, an accepted
+file is tiled by the returned members exactly from byte 0 to its end, each member of at least 4 bytes -/
+theorem scanMembers_tiles4 (hno : NoOverlap magicAt) {ms : List Member}
+    (h : scanMembers fileSize memberSizeAt magicAt = .ok ms) :
+    ms ≠ [] ∧ Contig 4 0 ms fileSize := by
+  refine ⟨(scanMembers_ok fileSize memberSizeAt magicAt h).1, ?_⟩
+  unfold scanMembers scanMembersFuel at h
+  by_cases hs : fileSize < Consts.LZIP_HEADER_SIZE + Consts.LZIP_TRAILER_SIZE
+  · rw [if_pos hs] at h; cases h
+  rw [if_neg hs] at h
+  have key := scanLoop_spec4 fileSize memberSizeAt magicAt hno (fileSize + 1) fileSize [] (by omega) rfl (Or.inl rfl)
+  revert h key
+  cases scanLoop fileSize memberSizeAt magicAt (fileSize + 1) fileSize [] with
+  | error e => intro h; cases h
+  | ok ms' =>
+    intro h key
+    have hms : ms' = ms := by
+      cases ms' with
+      | nil => cases h
+      | cons m r => cases h; rfl
+    subst hms
+    exact key ms' rfl
+
 /-- G5e: with a magic test that cannot overlap itself, every member has ≥ 4 bytes and there are at most
 `fileSize / 4` members -/
 theorem scanMembers_count4 (hno : NoOverlap magicAt) {ms : List Member}
@@ -778,7 +884,7 @@ theorem scanMembers_count4 (hno : NoOverlap magicAt) {ms : List Member}
   | error e => intro h; cases h
   | ok ms' =>
     intro h key
-    obtain ⟨a, _, hc⟩ := key ms' rfl
+    have hc := key ms' rfl
     have hms : ms' = ms := by
       cases ms' with
       | nil => cases h
@@ -823,7 +929,7 @@ theorem scanFile_total (file : List Nat) :
     | .ok ms => ms ≠ [] ∧ ms.length ≤ file.length / 4 ∧
         (∀ m ∈ ms, 4 ≤ m.size ∧ m.start + m.size ≤ file.length) ∧
         ms.Pairwise (fun m1 m2 => m1.start + m1.size ≤ m2.start) ∧
-        (ms.map (·.size)).sum ≤ file.length
+        (ms.map (·.size)).sum = file.length
     | .error e => e ≠ .fuel ∧ e ≠ .arith := by
   unfold scanFile
   have ht := scanMembers_total file.length (memberSizeOf file) (magicOf file)
@@ -834,7 +940,27 @@ theorem scanFile_total (file : List Nat) :
     obtain ⟨h4, hlen⟩ := scanMembers_count4 _ _ _ (magicOf_noOverlap file) hres
     have hin := scanMembers_inside _ _ _ hres
     exact ⟨ht.1, hlen, fun m hm => ⟨h4 m hm, (hin m hm).1⟩, scanMembers_disjoint _ _ _ hres,
-      (scanMembers_count _ _ _ hres).2.1⟩
+      scanMembers_sum _ _ _ hres⟩
+
+/-- G5f for an actual file.  If `scan_members` accepts a file, the members it returns
+* tile the file exactly from byte 0 to its end (`Contig 4 0 ms |file|`: the first starts at 0, each starts where its
+  predecessor ends, the last ends at the end of the file, each has at least 4 bytes),
+* so every byte position of the file lies inside one of them,
+* and each starts with the four magic bytes and ends with a trailer whose `member_size` field is its size. -/
+theorem scanFile_tiles (file : List Nat) {ms : List Member} (h : scanFile file = .ok ms) :
+    ms ≠ [] ∧ Contig 4 0 ms file.length ∧
+    (∀ p, p < file.length → ∃ m ∈ ms, m.start ≤ p ∧ p < m.start + m.size) ∧
+    (∀ m ∈ ms, magicOf file m.start = true ∧ memberSizeOf file (m.start + m.size) = m.size) := by
+  unfold scanFile at h
+  obtain ⟨hne, hc⟩ := scanMembers_tiles4 _ _ _ (magicOf_noOverlap file) h
+  exact ⟨hne, hc, fun p hp => hc.covers p (Nat.zero_le p) hp, scanMembers_members _ _ _ h⟩
+
+/-- leftover bytes in front of the first member are an error of the scan: the file `junk ++ rest` with
+`0 < |junk| < 20`, where the backward scan of `junk ++ rest` arrives at position `|junk|`, is never accepted.
+Stated on the loop: from any position `0 < cur < 20` the answer is the `leading` error. -/
+theorem scanLoop_leading (fuel cur : Nat) (acc : List Member) (h0 : 0 < cur) (h20 : cur < 20) :
+    scanLoop fileSize memberSizeAt magicAt (fuel + 1) cur acc = .error .leading := by
+  rw [scanLoop_succ, if_neg (by omega), if_pos h20]
 
 end ScanPart
 
@@ -2398,12 +2524,20 @@ theorem ScanRes.isOk_spec {r : Except ScanErr (List Member)} {ms : List Member} 
   | error e => cases h
   | ok ms' => simp only [ScanRes.isOk, beq_iff_eq] at h; rw [h]
 
-/-- non-vacuity of G5: two members plus 3 leading bytes that the backward scan ignores -/
-theorem exScan : scanFile ([9, 9, 9] ++ exMember ++ exMember) = .ok [⟨3, 26⟩, ⟨29, 26⟩] :=
+/-- non-vacuity of G5: two members -/
+theorem exScan : scanFile (exMember ++ exMember) = .ok [⟨0, 26⟩, ⟨26, 26⟩] :=
   ScanRes.isOk_spec (by decide +kernel)
 
-example : ([⟨3, 26⟩, ⟨29, 26⟩] : List Member).length ≤ ([9, 9, 9] ++ exMember ++ exMember).length / 4 :=
+example : ([⟨0, 26⟩, ⟨26, 26⟩] : List Member).length ≤ (exMember ++ exMember).length / 4 :=
   (scanMembers_count4 _ _ _ (magicOf_noOverlap _) exScan).2
+
+/-- non-vacuity of G5f -/
+example : Contig 4 0 [⟨0, 26⟩, ⟨26, 26⟩] (exMember ++ exMember).length := (scanFile_tiles _ exScan).2.1
+
+/-- the repaired laxity: 3 bytes in front of the first member (the scan used to ignore them and answer
+`.ok [⟨3, 26⟩, ⟨29, 26⟩]`), and a first member of which only the last 10 bytes are left -/
+example : scanFile ([9, 9, 9] ++ exMember ++ exMember) = .error .leading := by decide +kernel
+example : scanFile (exMember.drop 16 ++ exMember ++ exMember) = .error .leading := by decide +kernel
 
 /-- …and a trailer announcing a member bigger than the file is an error, not a huge allocation -/
 example : scanFile (exMember.take 18 ++ [255, 255, 255, 255, 255, 255, 255, 255]) = .error .badSize := by
@@ -2523,6 +2657,11 @@ end ExamplesPart
 #print axioms scanMembers_count
 #print axioms scanLoop_spec4
 #print axioms scanMembers_count4
+#print axioms scanMembers_tiles4
+#print axioms scanMembers_sum
+#print axioms scanMembers_members
+#print axioms scanFile_tiles
+#print axioms scanLoop_leading
 #print axioms lzip_magic_noOverlap_aux
 #print axioms magicOf_noOverlap
 #print axioms scanFile_total
